@@ -39,6 +39,8 @@ def run(ctx, L, tier):
     P.f3_endianness(ctx, L)
     from . import c20
     c20.shared_state(ctx, L)        # no state that survives from one compiled file / call to the next (module, class, closure, default argument)
+    from . import shared_gen as _G
+    _G.generators_read_only(ctx, L)
     return sorted(set(o.rule for o in L.obligations))
 
 
